@@ -280,6 +280,14 @@ class Interp:
                         cal = self.cg.callees_of_call(f, n)
                         if cal & self.touches_sp:
                             effs = {net_effect(self, c) for c in cal & self.touches_sp}
+                            if (len(effs) != 1 or None in effs) and N is not None:
+                                # a helper that is handed the argument count: its effect depends on it
+                                pis = [j for j, a in enumerate(n.get("args", [])) if self.ival(a, N) == N and strip(a).get("k") in ("Ref",)]
+                                for pj in pis:
+                                    e2 = {net_effect_n(self, c, pj, N) for c in cal & self.touches_sp}
+                                    if len(e2) == 1 and None not in e2:
+                                        effs = e2
+                                        break
                             if len(effs) == 1 and None not in effs and st.sp is not None:
                                 st = St(st.sp + effs.pop(), st.tags, st.locs)
                             else:
@@ -445,6 +453,51 @@ def net_effect(ctx, name):
     if len(vals) == 1 and None not in vals:
         NET_EFFECT[name] = vals.pop()
     return NET_EFFECT[name]
+
+
+NET_EFFECT_N = {}
+
+
+def net_effect_n(ctx, name, pi, N):
+    """change of sp of a helper whose parameter `pi` carries the argument count N (f_filter -> filter_array(arg, num_arg)):
+    the helper is interpreted with that parameter bound to N"""
+    key = (name, pi, N)
+    if key in NET_EFFECT_N:
+        return NET_EFFECT_N[key]
+    NET_EFFECT_N[key] = None
+    fs = ctx.cg.funcs.get(name, [])
+    if len(fs) != 1:
+        return None
+    g = fs[0]
+    pid = None
+    for p_ in g.params or []:
+        if p_.get("pi") == pi and (p_.get("t") or "") in ("int", "long", "unsigned int", "short"):
+            pid = p_.get("id")
+    if pid is None:
+        return None
+    it = Interp(g, DUMMY_SPEC, ctx.touches_sp, ctx.cg)
+    it.nvars = set(it.nvars) | {pid}
+    try:
+        ins = solve(g, {N: St(0)}, it.transfer(False), it.edge, make_join(DUMMY_SPEC))
+    except (RuntimeError, RecursionError):
+        return None
+    tr = it.transfer(False)
+    vals = set()
+    for bid in g.reachable():
+        blk = g.blocks[bid]
+        if g.exit not in [x for x in blk.succ if x is not None] or bid not in ins:
+            continue
+        if blk.nr or any(m.get("k") == "Call" and (m.get("nr") or m.get("fn") in ("error", "error_handler", "fatal", "bad_arg", "bad_argument", "longjmp")) for e in blk.el for m in walk(e, True)):
+            continue
+        out = tr(blk, ins[bid])
+        for idx, sx in enumerate(blk.succ):
+            if sx == g.exit:
+                o2 = it.edge(blk, idx, sx, out)
+                if o2:
+                    vals |= {st.sp for st in o2.values()}
+    if len(vals) == 1 and None not in vals:
+        NET_EFFECT_N[key] = vals.pop()
+    return NET_EFFECT_N[key]
 
 
 def make_join(spec):
